@@ -6,4 +6,5 @@ CONSTANTS TxGas = 3
           Max = 10
           Holes = TRUE
 INVARIANTS Sufficient Minimal WithinCap FailsCleanly ProbesWithinCap NoRepeat HiSucceeds Progress ProbeBound
+PROPERTIES SearchRefines
 CHECK_DEADLOCK FALSE
